@@ -211,15 +211,45 @@ func evalWCases(c *Ctx, rng *rand.Rand, models []*Model, reps, exhaustiveUpTo, s
 						orders = append(orders, append([]string{labels[k]}, labels...))
 					}
 				}
-				for _, o := range orders {
-					r, _ := hookWBuild(wc.pm, o)
-					wc.forced = append(wc.forced, r)
-					wc.orders = append(wc.orders, o)
+				for oi, o := range orders {
+					// the start order is forced, Go's map iteration inside the assignment is not: repeat the
+					// build so that several iteration orders are seen under one start order
+					rep := 1
+					if len(orders) <= 40 || oi < 12 {
+						rep = 3
+					}
+					for k := 0; k < rep; k++ {
+						r, _ := hookWBuild(wc.pm, o)
+						wc.forced = append(wc.forced, r)
+						wc.orders = append(wc.orders, o)
+					}
 				}
 			}
 		}
 		cases[i] = wc
 	})
+	// the port of AssignWeights (Model/WAssign.lean) against the real assignment, order by order:
+	// error class, and weights and wildcard lists of every node and edge
+	for _, wc := range cases {
+		n := 0
+		for oi, o := range wc.orders {
+			if o == nil || wc.forced[oi].Assign == "" {
+				continue
+			}
+			// a spread of the forced orders (all of them would be up to 7! per model)
+			if len(wc.orders) > 12 && oi%(len(wc.orders)/12+1) != 1 {
+				continue
+			}
+			q := []string{}
+			for _, x := range o {
+				q = append(q, Q(x))
+			}
+			c.D.Add("corr:wassign", L("wassign", wc.canon, L(q...)), wc.forced[oi].Assign,
+				map[string]any{"model": wc.canon, "dfs_start_order": o})
+			n++
+		}
+		c.DistN("wassign_orders_compared", n)
+	}
 	ops := []string{}
 	for _, wc := range cases {
 		ops = append(ops, L("wspec", wc.canon), L("wspec-edges", wc.canon))
@@ -334,6 +364,10 @@ func (wc *wCase) classify(r wResult, what string) string {
 func genWModels(rng *rand.Rand, n int) []*Model {
 	ms := make([]*Model, n)
 	for i := range ms {
+		if i%8 == 7 {
+			ms[i] = GenCycleWeb(rng)
+			continue
+		}
 		if k := rng.Intn(10); k < 2 {
 			ms[i] = GenGraphModel(rng)
 		} else if k < 4 {
@@ -555,6 +589,24 @@ func init() {
 						}
 						break
 					}
+				}
+			}
+		}
+		// webs of tuple cycles, each built many times: cycle resolution walks Go maps, whose iteration order
+		// changes from build to build, so one model is a whole family of schedules
+		webs := c.Pick(150, 1500)
+		webBuilds := c.Pick(150, 400)
+		for i := 0; i < webs; i++ {
+			wm := GenCycleWeb(rng).Proto()
+			ref := realWBuild(wm)
+			for k := 0; k < webBuilds; k++ {
+				r := realWBuild(wm)
+				c.Dist("cycle_web_builds")
+				if r.Full != ref.Full || (r.Err != "") != (ref.Err != "") {
+					js, _ := protojson.Marshal(wm)
+					c.OracleFail("c06:repeated-web", map[string]any{"model": canonModel(wm), "model_json": string(js), "build": k},
+						fmt.Sprintf("two builds of the same model differ: %q / %q", trunc(ref.Err+" "+ref.Full, 300), trunc(r.Err+" "+r.Full, 300)), "")
+					break
 				}
 			}
 		}
